@@ -20,18 +20,40 @@ def params_of(par: Dict) -> gen.Params:
                       bs=par["bs"], sj=par["mnum"] / par["mden"], ss=par["variant"])
 
 
+# The pipeline wires ONE Aligner per process (WorkflowCoordinatorFactory.create) and that object serves every query,
+# reference and strand of the run. The harness does the same: one aligner per parameter vector, every case with its
+# own pair of map ids (ids identify maps within a run), and before the call that is judged the same maps and peaks are
+# aligned on the opposite strand (the workflow aligns both strands of a query against a reference, and refined peaks
+# of the two strands may coincide). State that leaks from one call into the next is then visible to the clauses.
+_ALIGNERS: Dict = {}
+_CASE_NO = [0]
+
+
+def shared_aligner(p: gen.Params):
+    key = (p.sp, p.dp, p.su, p.d, p.ms, p.bs, p.sj, p.ss)
+    if key not in _ALIGNERS:
+        _ALIGNERS[key] = gen.real_aligner(p)
+    return _ALIGNERS[key]
+
+
 def run_align(inp: Dict, replay_chain: bool) -> Dict:
     """inp = {ref, qry, qlen, shift, rev, peaks, par}; returns the trace record for Trace_AlignCore"""
     from src.correlation.peak import Peak
     par = inp["par"]
     p = params_of(par)
     den = par["dpden"]
-    aligner, chainer, _ = gen.real_aligner(p)
+    aligner, chainer, _ = shared_aligner(p)
+    _CASE_NO[0] += 1
     ref, qry = gen.optical_maps(inp["ref"], inp["qry"], qlen=inp["qlen"], shift=inp["shift"],
-                                ref_len=(inp["ref"][-1] + 1000) if inp["ref"] else 1000)
+                                ref_len=(inp["ref"][-1] + 1000) if inp["ref"] else 1000,
+                                qid=5 + 2 * _CASE_NO[0], rid=4 + 2 * _CASE_NO[0])
     peaks = [Peak(x, 1.) for x in inp["peaks"]]
     chain: List[int] = []
     obs = {"status": "ok", "segs": [], "pairs": [], "conf": 0}
+    try:
+        aligner.align(ref, qry, [Peak(x, 1.) for x in inp["peaks"]], not inp["rev"])     # the other strand first (not judged)
+    except Exception:
+        pass
     try:
         if not replay_chain:
             segs = []
